@@ -52,8 +52,10 @@ def _points(all_pts, maxn, seed, must=()):
     rng = np.random.default_rng(seed)
     keep = set(m for m in must if m in all_pts)
     rest = [p for p in all_pts if p not in keep]
-    pick = rng.choice(len(rest), size=maxn - len(keep), replace=False)
-    keep.update(rest[i] for i in pick)
+    extra = max(0, min(len(rest), maxn - len(keep)))
+    if extra:
+        pick = rng.choice(len(rest), size=extra, replace=False)
+        keep.update(rest[int(i)] for i in pick)
     return sorted(keep), False
 
 
